@@ -47,3 +47,36 @@ Proof.
   - intros (e & ws & trail & <- & Hw & Ht & Hacc).
     rewrite (get_ast_render_psem e ws trail Hw Ht). now apply psem_ok_iff.
 Qed.
+
+(* ---- the open finding, exactly ----
+   every written MCNP expression falls in exactly one of two cases: it has no
+   #n below a #( ) and is accepted with MCNP's meaning, or it has one and
+   get_ast raises AttributeError.  So the class nested_complement_of_cellref
+   ([no_cell_under_not e = false]) is precisely the complement of the accepted
+   set inside the well-formed expressions; MCNP's meaning of the rejected ones
+   is [mden cd sg e] like for any other expression (Spec.v). *)
+Theorem written_dichotomy e ws trail :
+  wf_written ws = true -> tokens_written ws = toks 0 e ->
+  (no_cell_under_not e = true /\
+   exists a, get_ast (render ws trail) = Ok a /\
+             (nonzero e = true -> forall cd sg, aden cd sg a = mden cd sg e)) \/
+  (no_cell_under_not e = false /\ get_ast (render ws trail) = Err EAttribute).
+Proof.
+  intros Hw Ht. destruct (no_cell_under_not e) eqn:Hc.
+  - left. split; [reflexivity|].
+    destruct (proj2 (accepted_written_iff e ws trail Hw Ht) Hc) as [a Ea].
+    exists a. split; [exact Ea|]. intros Hn cd sg.
+    assert (Hadm : admissible e = true) by (unfold admissible; now rewrite Hc, Hn).
+    destruct (parse_print_layout e ws trail Hadm Hw Ht) as (a' & Ea' & _ & D).
+    rewrite Ea in Ea'. injection Ea' as <-. apply D.
+  - right. split; [reflexivity|]. exact (nested_rejected_written e ws trail Hw Ht Hc).
+Qed.
+
+Theorem rejected_iff_nested e ws trail :
+  wf_written ws = true -> tokens_written ws = toks 0 e ->
+  ((exists x, get_ast (render ws trail) = Err x) <-> no_cell_under_not e = false).
+Proof.
+  intros Hw Ht. destruct (written_dichotomy e ws trail Hw Ht) as [(Hc & a & Ea & _)|(Hc & Ee)].
+  - rewrite Ea, Hc. split; [intros [x H]; discriminate|discriminate].
+  - rewrite Ee, Hc. split; [reflexivity|eauto].
+Qed.
